@@ -199,11 +199,9 @@ def _convert_direct_call(node: ast.Call) -> libsbml.ASTNode:
             sbml_node.addChild(_convert_node(arg))
         return sbml_node
 
-    # General function call
-    sbml_node = libsbml.ASTNode(libsbml.AST_FUNCTION)
-    for arg in node.args:
-        sbml_node.addChild(_convert_node(arg))
-    return sbml_node
+    # Anything else would be written as a function without a name
+    msg = f"Function call {func}"
+    raise NotImplementedError(msg)
 
 
 def _convert_library_call(node: ast.Call) -> libsbml.ASTNode:
@@ -227,11 +225,9 @@ def _convert_library_call(node: ast.Call) -> libsbml.ASTNode:
                 sbml_node.addChild(_convert_node(arg))
             return sbml_node
 
-    # General library call
-    sbml_node = libsbml.ASTNode(libsbml.AST_FUNCTION)
-    for arg in node.args:
-        sbml_node.addChild(_convert_node(arg))
-    return sbml_node
+    # Anything else would be written as a function without a name
+    msg = f"Function call {parent}.{attr}"
+    raise NotImplementedError(msg)
 
 
 def _convert_call(node: ast.Call) -> libsbml.ASTNode:
@@ -309,10 +305,11 @@ def _convert_node(node: ast.stmt | ast.expr) -> libsbml.ASTNode:
 
 
 def _handle_body(stmts: list[ast.stmt]) -> libsbml.ASTNode:
-    code = libsbml.ASTNode()
-    for stmt in stmts:
-        code = _convert_node(stmt)
-    return code
+    # Only the expression of a single return statement can be written as MathML
+    if len(stmts) != 1 or not isinstance(stmts[0], ast.Return):
+        msg = "Only functions consisting of a single return statement are supported"
+        raise NotImplementedError(msg)
+    return _convert_node(stmts[0])
 
 
 def _tree_to_sbml(
